@@ -182,7 +182,7 @@ class MALA(ULA):
         log_target_ratio = logpi_eval_star - target_eval_t
         log_prop_ratio = self.log_proposal(x_t, x_star, g_logpi_star) \
             - self.log_proposal(x_star, x_t,  g_target_eval_t)
-        log_alpha = min(0, log_target_ratio + log_prop_ratio)
+        log_alpha = np.minimum(0, log_target_ratio + log_prop_ratio) # a NaN ratio stays NaN: rejected
 
         # accept/reject
         log_u = np.log(cuqi.distribution.Uniform(low=0, high=1).sample(rng=self.rng))
